@@ -5,7 +5,7 @@ MCCaseSpace == LET cs == ndJsonDeserialize(IOEnv.CASES) IN {cs[i] : i \in DOMAIN
 PrintCase ==
   Violated => PrintT(ToJson([cid |-> case.cid, rec |-> RecRes.st,
                              shown |-> {<<pv[1], pv[2].t, pv[2].n, pv[2].s>> : pv \in Shown},
-                             touched |-> RecRes.tc, evaluated |-> PyRes.ev,
+                             touched |-> RecRes.tc, evaluated |-> PyRes.ev, nonefree |-> NoneFree,
                              identcalls |-> Cardinality({pv \in RecRes.val : pv[1] # 0 /\ Expr[pv[1]].k = "ident"})]))
 \* every case, violated or not: Python's verdict according to the specification (cross-checked against CPython)
 PrintPy == PrintT(ToJson([cid |-> case.cid, py |-> PyRes.st, truthy |-> IF PyRes.st = "ok" THEN Truthy(PyRes.v) ELSE FALSE,
